@@ -350,35 +350,43 @@ def check_c19(tier):
             a0 = al[0]
             V.add_violation('unused-feature-changes-behaviour', '%d builds behave differently from the majority, e.g. [%s] %s %s %s (digest %s)' % (len(al), ' '.join(a0[0]), a0[1], a0[2], a0[3], dg), dict(kind='c19', combo=list(a0[0]), std=a0[1], cxx=a0[2], header=a0[3]), count=len(al))
     # exhaustive behaviour comparison on the explorer for the feature subsets (g++, c++17): neutral digests must coincide
-    sub = [(), ('PLANS',), ('SER',), ('HIST',), ('LOG',), ('VERBOSE',), ('STRUCT', 'DBGTYPE'), ('NOTYPEINDEX',), ('PLANS', 'HIST', 'LOG'), ('PLANS', 'SER', 'HIST', 'VERBOSE', 'STRUCT', 'DBGTYPE', 'NOTYPEINDEX')]
+    sub = [(), ('PLANS',), ('SER',), ('HIST',), ('LOG',), ('VERBOSE',), ('STRUCT', 'DBGTYPE'), ('NOTYPEINDEX',), ('PLANS', 'HIST', 'LOG'), ('SER', 'HIST'), ('PLANS', 'SER'), ('PLANS', 'SER', 'HIST', 'VERBOSE', 'STRUCT', 'DBGTYPE', 'NOTYPEINDEX')]
     if tier == 'thorough': sub = [tuple(f for i, f in enumerate(('PLANS', 'SER', 'HIST', 'LOG', 'VERBOSE', 'STRUCT', 'DBGTYPE', 'NOTYPEINDEX')) if (m >> i) & 1) for m in range(256)]
     bases = [dict(N=3, HEAD=1, L=2, CTX=1), dict(N=2, HEAD=0, MANUAL=1, PAYLOAD=4, L=2, CTX=2)]
-    if tier == 'quick': bases = bases[:2]
+    # "a program that uses the features in U": the digest then includes what U lets it observe (previousTransition, plan contents, saved bytes)
+    # and the alphabet includes U's operations; every build whose feature set contains U must behave identically for that program.
+    USES = [((), 1, 0, 0), (('HIST',), 3, og('REPLAY'), 0), (('PLANS',), 5, og('PLAN', 'REPORT'), mf('REPORT', 'PLAN_EDIT')), (('SER',), 9, og('SERIAL'), 0), (('PLANS', 'HIST'), 7, og('PLAN', 'REPORT', 'REPLAY'), mf('REPORT', 'PLAN_EDIT'))]
     for bi, base in enumerate(bases):
-        jobs = []
-        for h in (['shipped', 'dev'] if tier == 'thorough' or not headers_identical() else ['shipped']):
-            for f in sub: jobs.append((f, h))
-        built = build_many([((('fsmx.cpp'), cfg(feats=f, **base)), dict(header=h)) for f, h in jobs])
-        nd = {}
-        def runone(x):
-            (f, h), (b, err) = x
-            if err: return (f, h, None, err)
-            return (f, h, run_fsmx(b, 'F%d[%s]/%s' % (bi, '+'.join(f), h), ['C19'], 1, M_TP if base.get('PAYLOAD') else M_T, O_T | og('PAYLOAD', 'MANUAL'), workers=1, flags=['--neutral', '--no-fresh'], deadline=120, samples=1), None)
-        with ThreadPoolExecutor(max_workers=NCPU) as ex:
-            outs = list(ex.map(runone, zip(jobs, built)))
-        for f, h, run, err in outs:
-            if err:
-                lines = [l for l in err.splitlines() if 'error' in l][:1]
-                V.add_violation('combination-does-not-compile', 'explorer harness with [%s] (%s header): %s' % (' '.join(f), h, (lines[0] if lines else err[-300:])[:400]), dict(kind='build', feats=list(f), header=h, output=err[-2500:])); continue
-            rs = dict(S('F', 1, 0, 0)); rs['header'] = h
-            V.add_fsmx(run, 'F%d' % bi, cfg(feats=f, **base), rs)
-            if run['result']: nd[(f, h)] = (run['result']['neutral_digest'], run['result']['neutral_tuples'])
-        if len(set(nd.values())) > 1:
-            ref = nd.get(((), 'shipped'))
-            odd = [k for k, v in nd.items() if v != ref][:5]
-            V.add_violation('unused-feature-changes-behaviour', 'explorer: the behaviour of a program that uses none of the features differs under %s (neutral digests %s)' % (odd, sorted(set(nd.values()))), dict(kind='differential', base=base, odd=[[list(k[0]), k[1]] for k in odd]))
-        else:
-            V.extra.setdefault('explorer_feature_differentials', []).append({'base': base, 'builds': len(nd), 'tuples': list(nd.values())[0][1] if nd else 0})
+        hv = (['shipped', 'dev'] if tier == 'thorough' or not headers_identical() else ['shipped'])
+        jobs = [(f, h) for h in hv for f in sub]
+        built = dict(zip(jobs, build_many([((('fsmx.cpp'), cfg(feats=f, CAP=(2 if 'PLANS' in f else 0), **base)), dict(header=h)) for f, h in jobs])))
+        for U, mask, ogx, mfx in USES:
+            if bi == 0 and U and U != ('PLANS',): continue           # history / serialization programs need the manually activated base (exit, replayEnter, load inactive)
+            group = [(f, h) for (f, h) in jobs if set(U) <= set(f)]
+            if tier == 'thorough' and U: group = [g for g in group if len(g[0]) <= len(U) + 1 or len(g[0]) >= 7]   # U, U+one more, nearly all
+            nd = {}
+            def runone(fh):
+                b, err = built[fh]
+                if err: return (fh, None, err)
+                f, h = fh
+                return (fh, run_fsmx(b, 'F%d[%s]/%s/uses[%s]' % (bi, '+'.join(f), h, '+'.join(U)), ['C19'], (0 if ('PLANS' in U and tier == 'quick') else 1), (M_TP if base.get('PAYLOAD') else M_T) | mfx, O_T | og('PAYLOAD', 'MANUAL') | ogx, workers=1, flags=['--neutral=%d' % mask, '--no-fresh'], deadline=150, samples=1), None)
+            with ThreadPoolExecutor(max_workers=NCPU) as ex:
+                outs = list(ex.map(runone, group))
+            for (f, h), run, err in outs:
+                if err:
+                    if not U:
+                        lines = [l for l in err.splitlines() if 'error' in l][:1]
+                        V.add_violation('combination-does-not-compile', 'explorer harness with [%s] (%s header): %s' % (' '.join(f), h, (lines[0] if lines else err[-300:])[:400]), dict(kind='build', feats=list(f), header=h, output=err[-2500:]))
+                    continue
+                rs = dict(S('F', 1, 0, 0)); rs['header'] = h
+                V.add_fsmx(run, 'F%d' % bi, cfg(feats=f, CAP=(2 if 'PLANS' in f else 0), **base), rs)
+                if run['result']: nd[(f, h)] = (run['result']['neutral_digest'], run['result']['neutral_tuples'])
+            if len(set(nd.values())) > 1:
+                ref = nd.get((tuple(U), 'shipped')) or list(nd.values())[0]
+                odd = [k for k, v in nd.items() if v != ref][:5]
+                V.add_violation('unused-feature-changes-behaviour', 'explorer: a program that uses [%s] behaves differently when further, unused features are enabled: %s differ from [%s] (digests %s)' % (' '.join(U) or 'no feature', [(' '.join(k[0]), k[1]) for k in odd], ' '.join(U), sorted(set(nd.values()))), dict(kind='differential', base=base, uses=list(U), odd=[[list(k[0]), k[1]] for k in odd]))
+            else:
+                V.extra.setdefault('explorer_feature_differentials', []).append({'base': base, 'program_uses': list(U), 'builds_compared': len(nd), 'tuples': list(nd.values())[0][1] if nd else 0})
     # the shipped header is exactly the amalgamation of the development sources
     try:
         am = amalgamate(); sh = shipped_header_text()
